@@ -7,8 +7,9 @@ class Prop:
     MODEL_TARGETS = ['model/Node.vo', 'model/NodeSpec.vo']
     TARGETS = ['props/C02.vo']
     PROPS_FILE = 'props/C02.v'
-    SUITES = [NodeSuite(evals={'mismatches': 'mismatches', 'spec_violations': 'spec_violations_c02',
-                               'known:shutdown-without-master': 'known_c02_shutdown'})]
+    SUITES = [NodeSuite(evals={'mismatches': 'mismatches', 'spec_violations': 'spec_violations_c02u',
+                               'known:shutdown-without-master': 'known_c02_shutdown',
+                               'known:user-sync-master-not-running': 'known_c02_user'})]
     RULE = ('adaptive random event histories (local ticks, peer ticks, STATE publications, handshake notifications, '
             'failures, restart/shutdown/end_sync requests, process crashes) on one real instance with 6 declared '
             'instances and random synchro options; the generator follows the real state so that handshakes complete '
